@@ -58,7 +58,6 @@ var configs = []Config{
 var designated = map[string][]string{
 	"omit_fib": {
 		"Add IPv4 entry that can be programmed on the server - with FIB ACK",
-		"Add next-hop-group entry that can be resolved on the server, no referencing IPv4 entries - with FIB ACK",
 		"Delete NH entry successfully - FIB ACK", // was declared with InstalledInRIB and passed against omit_fib until /repo 1e3d7ea
 	},
 	"nonprimary": {
@@ -94,29 +93,72 @@ var designated = map[string][]string{
 	"accept_repeated_params": {
 		"Modify RPC Connection with repeated SessionParameters",
 	},
+	// the same requirements broken in a second way (per recipient / per kind of operation / per table / per scope)
+	"echo_own_elect": {
+		"Election - Lower election ID from new client", // the only test that looks at the id reported to a session that did not win
+	},
+	"misreport_elect_nonprimary_only": {
+		"Election - Lower election ID from new client",
+	},
+	"omit_fib_for_deletes_only": {
+		"Delete NHG entry successfully - FIB ACK",
+	},
+	"stale_get_one_table_only": {
+		"Get for installed IPv4 Entry - RIB ACK",
+		"Get for installed chain of entries - RIB ACK",
+		"Election - Active entries after new master connects",
+		"Flush to specific network instance is honoured",
+	},
+	"ignore_flush_named_only": {
+		"Flush to specific network instance is honoured",
+	},
+	"old_primary_kept_on_equal_id": {
+		"Election - Sending same election ID from two clients",
+	},
+}
+
+// controls names, for each fault, tests about the same requirement that the fault must NOT break (they are run and
+// compared with the model where transcribed; they are not part of the oracle).
+var controls = map[string][]string{
+	"echo_own_elect":                  {"Election - Sending same election ID from two clients"},
+	"misreport_elect_nonprimary_only": {"Election - Decrementing election ID is ignored"},
+	"omit_fib_for_deletes_only":       {"Add IPv4 entry that can be programmed on the server - with FIB ACK"},
+	"stale_get_one_table_only":        {"Get for installed NH - RIB ACK"},
+	"ignore_flush_named_only":         {"Flush of all entries in default NI by elected master"},
+	"old_primary_kept_on_equal_id":    {"Election - Unannounced master operations are rejected"},
 }
 
 // extraDesignated is added in the thorough tier (tests that end in the client's one-minute wait).
 var extraDesignated = map[string][]string{
 	"omit_fib": {
+		"Add next-hop-group entry that can be resolved on the server, no referencing IPv4 entries - with FIB ACK",
 		"Idempotent Delete entry - FIB ACK",
 		"Get for installed NH - FIB ACK",
 		"Implicit replace NH entry - FIB ACK",
+	},
+	"omit_fib_for_deletes_only": {
+		"Idempotent Delete entry - FIB ACK",
+		"Delete NH entry successfully - FIB ACK",
 	},
 }
 
 // transcribed maps the compliance tests that are transcribed as scripts in
 // coq/theories/Tools/Compliance.v (test_of) to their number there.
 var transcribed = map[string]int{
-	"Modify RPC Connection with Election ID":                                1,
-	"Modify RPC Connection with repeated SessionParameters":                 2,
-	"Add IPv4 entry that can be programmed on the server - with RIB ACK":    3,
-	"Add IPv4 entry that can be programmed on the server - with FIB ACK":    4,
-	"Idempotent Delete entry - RIB ACK":                                     5,
-	"Election - Sending same election ID from two clients":                  6,
-	"Election - Unannounced master operations are rejected":                 7,
-	"Get for installed NH - RIB ACK":                                        8,
-	"Flush of all entries in default NI by elected master":                  9,
+	"Modify RPC Connection with Election ID":                             1,
+	"Modify RPC Connection with repeated SessionParameters":              2,
+	"Add IPv4 entry that can be programmed on the server - with RIB ACK": 3,
+	"Add IPv4 entry that can be programmed on the server - with FIB ACK": 4,
+	"Idempotent Delete entry - RIB ACK":                                  5,
+	"Election - Sending same election ID from two clients":               6,
+	"Election - Unannounced master operations are rejected":              7,
+	"Get for installed NH - RIB ACK":                                     8,
+	"Flush of all entries in default NI by elected master":               9,
+	"Idempotent Delete entry - FIB ACK":                                  10,
+	"Get for installed IPv4 Entry - RIB ACK":                             11,
+	"Flush to specific network instance is honoured":                     12,
+	"Election - Lower election ID from new client":                       13,
+	"Election - Decrementing election ID is ignored":                     14,
 }
 
 func transcribedNames() []string {
@@ -356,12 +398,15 @@ func generate(seed int64, n int, tier string, names []string) []Case {
 	cases = append(cases, Case{Kind: "cells", Server: "reference", Config: configs[1], Order: transcribedNames(), Seed: seed})
 	for _, k := range faultKinds[1:] {
 		order := append([]string{}, designated[k]...)
-		controls := []string{"Add IPv4 entry that can be programmed on the server - with RIB ACK", "Modify RPC Connection with Election ID"}
+		ctl := controls[k]
+		if ctl == nil {
+			ctl = []string{"Add IPv4 entry that can be programmed on the server - with RIB ACK", "Modify RPC Connection with Election ID"}
+		}
 		if tier == "thorough" {
 			order = append(order, extraDesignated[k]...)
-			controls = transcribedNames()
+			ctl = append(append([]string{}, ctl...), transcribedNames()...)
 		}
-		for _, c := range controls {
+		for _, c := range ctl {
 			dup := false
 			for _, o := range order {
 				dup = dup || o == c
